@@ -69,6 +69,12 @@ func TestWorker(t *testing.T) {
 			t.Fatalf("load scenario: %v", err)
 		}
 		emit(map[string]interface{}{"t": "begin", "seed": sc.Seed, "idx": 0})
+		for _, pre := range sc.Prefix {
+			pre.Prefix = nil
+			eng.Run(t, pre)
+		}
+		sc.Prefix = nil
+		newRaceReports() // reports of the prefix do not belong to this scenario
 		firstObs = nil
 		res := eng.Run(t, sc)
 		if os.Getenv("VERIF_TRACE") != "" && res.Sample == nil && firstObs != nil {
